@@ -81,7 +81,7 @@ impl Prop for C09 {
         "C09"
     }
     fn rule(&self) -> String {
-        "case = (degree 0..=8 uniform (the quartic has its own representation), coefficient vector with cancellation patterns, exponents up to ±30 (3/4) or ±200 (1/4), all ordinates (coefficients, knot.y) times a common power of two 2^k (k=0 in 70% of cases, else uniform in ±300); knot.x, a, b > 0 from {1, 1±k ulp, e^j, 2^±j, log-uniform in [1e-3,1e3], |x| in 2^±3, 1e±300, 7, 0.79, 1.2}; knot.y any; in 30% of cases the three points are multiplied by one common power of two 2^k, k in ±300, so that all of them lie in the same tiny or huge regime). Oracle, independent of the library's recurrence and of libm: G(t) = t·Q(ln t) with Q_j = Σ_{i>=j} p_i (-1)^(i-j) i!/j! (exact) and ln in 384-bit arithmetic; checked through Evaluate::evaluate of the returned object: |F(knot.x)-knot.y| <= K·u·(|knot.y|+M(knot.x)) and |(F(b)-F(a)) - (G(b)-G(a))| <= K·u·(|knot.y|+M(knot.x)+M(a)+M(b)), the same for indefinite() with constant 0 (its additive constant must be exactly 0), K=160, M(t)=t·Σ_j Q̄_j|ln t|^j; degree 4: magnitudes of its own representation and factor 1e-12+K·u. Domain: all magnitudes within 2^±900. Non-trivial: degree>=1, >=2 non-zero coefficients, none of knot.x, a, b equal to 1.".into()
+        "case = (degree 0..=8 uniform (the quartic has its own representation), coefficient vector with cancellation patterns, exponents up to ±30 (3/4) or ±200 (1/4), all ordinates (coefficients, knot.y) times a common power of two 2^k (k=0 in 70% of cases, else uniform in ±300); knot.x, a, b > 0 from {1, 1±k ulp, e^j, 2^±j, log-uniform in [1e-3,1e3], |x| in 2^±3, 1e±300, 7, 0.79, 1.2}; knot.y any; in 30% of cases the three points are multiplied by one common power of two 2^k, k in ±300, so that all of them lie in the same tiny or huge regime). Oracle, independent of the library's recurrence and of libm: G(t) = t·Q(ln t) with Q_j = Σ_{i>=j} p_i (-1)^(i-j) i!/j! (exact) and ln in 384-bit arithmetic; checked through Evaluate::evaluate of the returned object: |F(knot.x)-knot.y| <= K·u·(|knot.y|+M(knot.x)) and |(F(b)-F(a)) - (G(b)-G(a))| <= K·u·(|knot.y|+M(knot.x)+M(a)+M(b)), the same for indefinite() with |k| of the returned form in place of |knot.y| (which additive constant it carries is not pinned), K=160, M(t)=t·Σ_j Q̄_j|ln t|^j; degree 4: magnitudes of its own representation and factor 1e-12+K·u. Domain: all magnitudes within 2^±900. Non-trivial: degree>=1, >=2 non-zero coefficients, none of knot.x, a, b equal to 1.".into()
     }
     fn assumptions(&self) -> Vec<String> {
         vec!["K = 160 (DESIGN.md §4 C09) is the harness's reading of 'within the rounding bound of the construction'; measured worst ratio on the repaired tree is reported in DESIGN.md".into()]
@@ -147,10 +147,12 @@ impl Prop for C09 {
         };
         let exact = log_integral(&p, a, b);
         let what = format!("Log<Poly{deg}>{p:?}");
-        // (c) indefinite(): additive constant exactly 0
-        ctx.comparisons += 5;
-        if obs.indef_nums[0] != 0.0 {
-            fail!("{what}.indefinite() has additive constant {} (must be 0)", hex(obs.indef_nums[0]));
+        // (c) indefinite(): the property asks for AN antiderivative; which additive constant it carries is not pinned
+        // (its magnitude enters the rounding bound of clause (d))
+        ctx.comparisons += 4;
+        let k_ind = obs.indef_nums[0];
+        if !k_ind.is_finite() {
+            fail!("{what}.indefinite() has a non-finite additive constant {}", hex(k_ind));
         }
         // (a) passes through the knot
         let b1 = factor(&d(ky).abs().add(&mk));
@@ -184,7 +186,7 @@ impl Prop for C09 {
             fail!("{what}.indefinite() evaluates to {} / {} at a={}, b={}", hex(obs.i_a), hex(obs.i_b), hex(a), hex(b));
         }
         let got_i = d(obs.i_b).sub(&d(obs.i_a));
-        let b3 = factor(&ma.add(&mb)).add(&ma.add(&mb).mul_pow2(-300));
+        let b3 = factor(&ma.add(&mb).add(&d(k_ind).abs().mul_u64(2))).add(&ma.add(&mb).mul_pow2(-300));
         if !got_i.sub(exact.dy()).abs().le(&b3) {
             let err = Bf::from_dy(&got_i.sub(exact.dy()).abs());
             fail!(
